@@ -386,6 +386,7 @@ func (c *FnCtx) callUnknownOpaque(fr *Frame, st *State, fv Val, ft types.Type, a
 func (c *FnCtx) invoke(fr *Frame, st *State, recv Val, m *types.Func, args []Val, pos token.Pos) *Val {
 	sig := m.Type().(*types.Signature)
 	resT := sig.Results()
+	c.guardInvoke(st, recv, m, pos)
 	o := c.obligation(st, "safe", "nilinvoke", "(not (= (i-tag "+recv.E+") 0))", pos)
 	o.Desc = "method call on nil interface value"
 	c.assume(st, "(not (= (i-tag "+recv.E+") 0))")
